@@ -2,7 +2,7 @@
    Only statements; proofs by reference (proofs/RotateProofs.v).  Model: model/Rotate.v
    (ctrl/qryn/maintenance/rotate.go: Rotate, rotateTables, storagePolicyUpdate, forgetSetting, get/putSetting). *)
 From Coq Require Import List ZArith Bool String.
-From Qryn Require Import model.Rotate model.RotateCfg model.RotateConc model.RotateClock model.RotateStamp proofs.RotateProofs proofs.RotateCfgProofs proofs.RotateConcProofs proofs.RotateClockProofs proofs.RotateStampProofs.
+From Qryn Require Import model.Rotate model.RotateCfg model.RotateConc model.RotateClock model.RotateStamp proofs.RotateProofs proofs.RotateCfgProofs proofs.RotateManyProofs proofs.RotateConcProofs proofs.RotateClockProofs proofs.RotateStampProofs.
 Import ListNotations.
 Open Scope string_scope.
 Open Scope list_scope.
@@ -322,3 +322,57 @@ Theorem nondecreasing_clock_is_not_enough :
    ~ sconverged wt_b (st_db wt2_final)).
 Proof. split; [exact wt1_diverges|exact wt2_diverges]. Qed.
 Print Assumptions nondecreasing_clock_is_not_enough.
+
+(* ------------------------------------------------------------------ several configured databases; func initDB of package main
+   model/RotateCfg.v (second part): every configured database has a state of its own (two objects may name the same
+   database); RotateAll goes through the objects in order. *)
+
+(* Uninterrupted, every ttl_policy timeout parsing, records naming only applied values everywhere: RotateAll succeeds and
+   EVERY database ends converged to the configuration of the last object that names it; a database no object names is
+   not touched.  (The retention of one database is never applied to another.) *)
+Theorem every_database_converges_to_its_own_configuration : forall parse os ds,
+  (forall i, consistent (ds i)) -> Forall (fun x => config_of parse (snd x) <> None) os ->
+  let '(l, ok, ds') := rotate_all_m parse os None ds in
+  ok = true /\ forall i, match last_cfg parse os i with
+                         | Some cfg => converged cfg (ds' i)
+                         | None => ds' i = ds i
+                         end.
+Proof. exact rotate_all_m_converges. Qed.
+Print Assumptions every_database_converges_to_its_own_configuration.
+
+(* Under any fault, with any timeouts: the records of every database still name only applied values; and with all
+   objects naming one database this is RotateAll as modelled above. *)
+Theorem rotate_all_many_databases : forall parse,
+  (forall os f ds, (forall i, consistent (ds i)) -> forall i, consistent (snd (rotate_all_m parse os f ds) i)) /\
+  (forall os f ds k, let '(l, ok, ds') := rotate_all_m parse (map (fun o => (k, o)) os) f ds in
+                     rotate_all parse os f (ds k) = (l, ok, ds' k) /\ forall i, i <> k -> ds' i = ds i).
+Proof. intro parse. split; [exact (rotate_all_m_consistent parse)|exact (rotate_all_m_one parse)]. Qed.
+Print Assumptions rotate_all_many_databases.
+
+(* "After initialisation": func initDB (main.go) = boolEnv; ctrl.Init; ctrl.Rotate, panicking on every error.  When the
+   variable boolEnv reads is a word for false (or unset), ctrl.Init succeeds, every timeout parses and nothing
+   interrupts: no panic, ctrl.Init was called, and every configured database is converged to its configuration.
+   When the variable says true nothing is issued at all (the variable is the one literally named "key", not
+   OMIT_CREATE_TABLES: see the observation in the design notes); when it is no boolean word, or ctrl.Init fails: panic
+   before any retention statement. *)
+Theorem after_initialisation_every_database_is_converged : forall parse e os ds,
+  bool_env (getenv e "key") = Some false ->
+  (forall i, consistent (ds i)) -> Forall (fun x => config_of parse (snd x) <> None) os ->
+  let '(panicked, called, l, ds') := init_db parse e false os None ds in
+  panicked = false /\ called = true /\
+  (forall i, match last_cfg parse os i with Some cfg => converged cfg (ds' i) | None => ds' i = ds i end) /\
+  (forall i, consistent (ds' i)).
+Proof. exact init_db_converges. Qed.
+Print Assumptions after_initialisation_every_database_is_converged.
+
+Theorem initialisation_skipped_or_refused : forall parse e ifails os f ds,
+  (bool_env (getenv e "key") = Some true -> init_db parse e ifails os f ds = (false, false, [], ds)) /\
+  (bool_env (getenv e "key") = None -> init_db parse e ifails os f ds = (true, false, [], ds)) /\
+  (bool_env (getenv e "key") = Some false -> init_db parse e true os f ds = (true, true, [], ds)) /\
+  ((forall i, consistent (ds i)) -> forall i, consistent (snd (init_db parse e ifails os f ds) i)).
+Proof.
+  intros parse e ifails os f ds. split; [exact (init_db_omitted parse e ifails os f ds)|].
+  split; [exact (init_db_bad_key parse e ifails os f ds)|]. split; [exact (init_db_init_fails parse e os f ds)|].
+  exact (init_db_consistent parse e ifails os f ds).
+Qed.
+Print Assumptions initialisation_skipped_or_refused.
